@@ -4,6 +4,7 @@ from hypothesis import strategies as st
 from lib.runner import Collector, hyp_search
 from lib import axi as ax
 from lib.fastsim import HarnessError
+from lib.native import slave_style
 
 ID = "C09"
 LEVEL = "exploration"
@@ -43,10 +44,12 @@ SCHED = [None, None, None, [1, 1], [2, 5], [1, 9], [4, 1, 1, 6], [0, 40, 1000, 0
 
 @st.composite
 def slave_sched(draw):
-    return dict(ready=draw(st.sampled_from([None, None, [1, 1], [3, 2], [1, 5], [8, 1, 1, 3], [0, 6, 4, 1]])),
-                wlat=draw(st.lists(st.integers(3, 14), min_size=1, max_size=4)),
-                rlat=draw(st.lists(st.integers(5, 20), min_size=1, max_size=4)),
-                qmax=draw(st.integers(1, 10)))
+    d = dict(ready=draw(st.sampled_from([None, None, [1, 1], [3, 2], [1, 5], [8, 1, 1, 3], [0, 6, 4, 1]])),
+             wlat=draw(st.lists(st.integers(3, 14), min_size=1, max_size=4)),
+             rlat=draw(st.lists(st.integers(5, 20), min_size=1, max_size=4)),
+             qmax=draw(st.integers(1, 10)))
+    d.update(slave_style(draw, st))
+    return d
 
 
 @st.composite
@@ -60,12 +63,20 @@ def stims(draw, cfg, max_ops, max_beats, long_ok=True):
         page = draw(st.integers(0, npages - 1))
         spots.append((page, draw(st.sampled_from([0, 0, wpp - 20, wpp // 2, 5]))))
     n = draw(st.integers(1, max_ops))
+    # "responses pile up" shape: many short write bursts while the master does not take B for a long time, so that the bridge's
+    # response / ID bookkeeping runs full (the reservation logic of the write path exists for exactly this)
+    pile = draw(st.integers(0, 5)) == 0
+    if pile:
+        n = min(max_ops, cfg["wdepth"] + draw(st.integers(1, 4)))
     ops = []
     beats = 0
     for i in range(n):
-        kind = "w" if draw(st.integers(0, 8)) < 5 else "r"
+        kind = "w" if (pile or draw(st.integers(0, 8)) < 5) else "r"
         burst = draw(st.sampled_from([ax.INCR, ax.INCR, ax.INCR, ax.WRAP, ax.FIXED]))
-        if burst == ax.INCR:
+        if pile:
+            burst = ax.INCR
+            nbeat = draw(st.sampled_from([1, 1, 2, 3]))
+        elif burst == ax.INCR:
             nbeat = draw(st.sampled_from([1, 1, 2, 2, 3, 4, 4, 5, 8, 8, 16, 17, 32]))
             if long_ok and draw(st.integers(0, 15)) == 15:
                 nbeat = draw(st.sampled_from([64, 100, 255, 256]))
@@ -102,7 +113,12 @@ def stims(draw, cfg, max_ops, max_beats, long_ok=True):
         if not ax.legal_burst(cfg, op):
             raise HarnessError("generator produced an illegal burst %s for %s" % (op, cfg))
         ops.append(op)
-    return dict(ops=ops, b_ready=draw(st.sampled_from(SCHED)), r_ready=draw(st.sampled_from(SCHED)), slave=draw(slave_sched()))
+    b_ready = draw(st.sampled_from(SCHED))
+    if pile:
+        b_ready = draw(st.sampled_from([[0, 150, 1000, 0], [0, 400, 1000, 0], [0, 80, 1, 60, 1000, 0]]))
+        for op in ops:
+            op["gap"] = min(op["gap"], 2)
+    return dict(ops=ops, b_ready=b_ready, r_ready=draw(st.sampled_from(SCHED)), slave=draw(slave_sched()))
 
 
 def evaluate(cfg, stim, backend="fast"):
